@@ -722,6 +722,10 @@ class FieldWrapper(Wrapper):
         if it has a default value
         """
 
+        # Whether `default` already holds one value per destination (only possible when this field
+        # is reused, with the `ConflictResolution.ALWAYS_MERGE` option).
+        per_destination = False
+
         if self._default is not None:
             # If a default value was set manually from the outside (e.g. from the DataclassWrapper)
             # then use that value.
@@ -750,6 +754,7 @@ class FieldWrapper(Wrapper):
                 default = defaults[0]
             else:
                 default = defaults
+                per_destination = True
         # Try to get the default from the field, if possible.
         elif self.field.default is not dataclasses.MISSING:
             default = self.field.default
@@ -778,12 +783,9 @@ class FieldWrapper(Wrapper):
         if self.is_reused and default is not None:
             n_destinations = len(self.destinations)
             assert n_destinations >= 1
-            # BUG: This second part (the `or` part) is weird. Probably only applies when using
-            # Lists of lists with the Reuse option, which is most likely not even supported..
-            if utils.is_tuple_or_list(self.field.type) and len(default) != n_destinations:
-                # The field is of a list type field,
-                default = [default] * n_destinations
-            elif not isinstance(default, list):
+            if not per_destination:
+                # A single default value (possibly itself a list or tuple, for a list / tuple
+                # field): every destination gets it.
                 default = [default] * n_destinations
             assert len(default) == n_destinations, (
                 f"Not the same number of default values and destinations. "
